@@ -46,6 +46,10 @@ func init() {
 				New: "\tcachedPlan, costCalculator := e.getCachedPlan(execContext, operation.Document(), e.config.schema.Document(), operation.OperationName, &report)\n"},
 			{Name: "validator reports Valid although the report has errors", File: opValidationGo, Rule: "C04-R4", Key: "Validate",
 				Old: "\tif report.HasErrors() {\n\t\treturn Invalid\n\t}\n\treturn Valid\n}", New: "\tif report.HasErrors() && len(report.InternalErrors) > 0 {\n\t\treturn Invalid\n\t}\n\treturn Valid\n}"},
+			{Name: "definition node looked up in the operation document (reverts the F27 fix)", File: "v2/pkg/astvalidation/operation_rule_validate_field_selections.go", Rule: "C04-R6", Key: "fieldDefined.EnterField/Document.NodeNameBytes",
+				Old: "typeName := f.definition.NodeNameBytes(f.EnclosingTypeDefinition)", New: "typeName := f.operation.NodeNameBytes(f.EnclosingTypeDefinition)"},
+			{Name: "union name resolved in the operation document", File: "v2/pkg/astvalidation/operation_rule_validate_field_selections.go", Rule: "C04-R6", Key: "fieldDefined.ValidateUnionField/Document.NodeNameBytes",
+				Old: "unionName := f.definition.NodeNameBytes(enclosingTypeDefinition)", New: "unionName := f.operation.NodeNameBytes(enclosingTypeDefinition)"},
 			{Name: "ValidateForSchema built from a hand-picked rule list", File: gqlValidateGo, Rule: "C04-R4", Key: "ValidateForSchema",
 				Old: "\tvalidator := astvalidation.DefaultOperationValidator(options...)\n", New: "\tvalidator := astvalidation.NewOperationValidator([]astvalidation.Rule{astvalidation.FieldSelections(), astvalidation.Values()})\n\t_ = options\n"},
 		},
@@ -155,6 +159,9 @@ func runC04(r *fw.Run) {
 
 	r.Rule("C04-R5", "the tree walker that drives validation/normalization (astvisitor.Walker) and the one that drives the printer (SimpleWalker) descend into the same children of every node kind")
 	walkerSiblings(r, "C04-R5")
+
+	r.Rule("C04-R6", "in every validation rule a node is looked up only in the document it came from: a definition node (Walker.EnclosingTypeDefinition, TypeDefinitions, a lookup in the definition) is never handed to a method of the operation document, nor the other way round")
+	documentProvenance(r, "C04-R6", []string{"astvalidation"}, 19)
 
 	// ---- R3 admission sequence --------------------------------------------------------------------
 	r.Rule("C04-R3", "ExecutionEngine.Execute plans only after normalization succeeded (when needed) and then ValidateForSchema returned err == nil ∧ Valid; it resolves only when planning reported no error")
